@@ -230,6 +230,7 @@ pub fn cmd_emit_crates(args: &[String]) {
     let with_drivers = args.iter().any(|a| a == "--drivers");
     let mut drivers = std::io::BufWriter::new(std::fs::File::create(format!("{}/drivers_{}.txt", out, shard)).unwrap());
     let mut expect = std::io::BufWriter::new(std::fs::File::create(format!("{}/expect_{}.txt", out, shard)).unwrap());
+    let mut serde_cases = std::io::BufWriter::new(std::fs::File::create(format!("{}/serde_{}.txt", out, shard)).unwrap());
     let mut specs: Vec<(usize, Spec, Cfg)> = vec![];
     if shard == 0 {
         for (i, s) in crate::corpus::compile_corpus().into_iter().enumerate() {
@@ -282,6 +283,14 @@ pub fn cmd_emit_crates(args: &[String]) {
                                 let name = format!("lnvx_{}_{}", id, o.file_name());
                                 std::fs::write(d.join("examples").join(format!("{}.rs", name)), text).unwrap();
                                 writeln!(drivers, "{}\t{}\texample\t{}\t()", id, name, hx(&o.name)).unwrap();
+                            }
+                        }
+                        // C04: instances synthesised from the schemas, pushed through serde on the compiled types
+                        let insts = crate::serdegen::instances(spec, &h);
+                        if !insts.is_empty() {
+                            std::fs::write(d.join("examples").join(format!("lnv_serde_{}.rs", id)), crate::serdegen::driver_source(&h, spec, &pkg)).unwrap();
+                            for (k, i) in insts.iter().enumerate() {
+                                writeln!(serde_cases, "{}\t{}\t{}\t{}\t{}|{}|{}\t{}", id, k, i.ty, hx(&i.schema), i.kind.replace(['\t', '|'], " "), i.flags.join(","), crate::serdegen::json_sexp(&i.json), i.json).unwrap();
                             }
                         }
                         let mut ex = crate::execgen::crate_expectations(spec, cfg);
